@@ -1688,6 +1688,9 @@ class SymEx:
                 return [(st, Const(None))]
             if name == 'copy':
                 return [(st, _deep(recv, {}))]
+            if name == 'clear' and not args:
+                del recv.pairs[:]
+                return [(st, Const(None))]
             if name == 'pop' and args:
                 p = find(args[0])
                 if p is not None:
